@@ -97,6 +97,13 @@ def run(tier):
     runs, _ = vlib.validate_runs(rep, "LinTrace", "LinTrace", hw, wd, "sweep", describe="not linearizable: {what}", strip=())
     account(runs)
     os.remove(hw)
+    # bursts: 1500-5000 (thorough 20000) calls sitting in the shard mailboxes at the same time (batches, single SETs on every
+    # path, GET batches), each key written once and read back: an acknowledged write is there, a refused one is not
+    hu = os.path.join(wd, "burst.ndjson")
+    vlib.vh(["lin", "burst", "--tier", tier, "--out", hu])
+    runs, _ = vlib.validate_runs(rep, "LinTrace", "LinTrace", hu, wd, "burst", describe="not linearizable: {what}", strip=())
+    account(runs)
+    os.remove(hu)
     # the same through real connection handlers (duplex streams), pipelines of 1-4 commands
     nc = 20000 if thorough else 1500
     for i in range(0, nc, 5000):
